@@ -257,7 +257,7 @@ func c07Run(ctx *Ctx, t *tape.Tape) *report.Violation {
 	// one program in five carries coordinates off the lattice (edges of the
 	// number forms, ties, full-mantissa floats): the codec must round them, and
 	// the comparison allows exactly the format's quantisation
-	gcfg := world.GenCfg{MaxItems: 10, Abstract: true, EncOnly: true, Observers: true, ForceReset: true, LongRuns: 3}
+	gcfg := world.GenCfg{MaxItems: 10, Abstract: true, EncOnly: true, Observers: true, ForceReset: true, LongRuns: 3, ManyStops: true}
 	if t.Chance(1, 5) {
 		gcfg.OffLattice, gcfg.LongRuns = true, 0
 	}
